@@ -14,6 +14,7 @@ import Penguin.Lemmas.PairHarness
 import Penguin.Lemmas.BindAllReach
 import Penguin.Lemmas.BindAllReach3
 import Penguin.Lemmas.BindAllConv
+import Penguin.Lemmas.BindAllClosed
 
 namespace Penguin.C15
 open Penguin Penguin.Mux
@@ -674,5 +675,77 @@ example :
     q.p.ba = [.frame (.finish 8)] ∧ lookup q.p.a.flows 8 = some (.bindRequested 5) ∧ q.p.a.dead = false ∧
     q.p.a.draining = none ∧ q.p.a.closing = none ∧ q.p.a.park = none ∧ q.p.a.inbox = [] ∧ q.p.a.srcEnded = false ∧
     (PairAll.stepL q.p .deliver).isSome = true := by decide
+
+
+open Penguin.BindAll Penguin.PairAll in
+/-- `Closed` only at the call, and only if the queue was closed — in every history.  If the record of a side
+    contains `done req closed` after a run (from the initial state), then the run contains a `request_bind`
+    call number `req` OF THAT SIDE such that, in the state the pair was in when the call was made, that side's
+    outbound queue was closed (its task was winding down or had finished: `tx_msg_tx.send` fails) or no flow id
+    could be drawn (`drawId = none`: the script has no usable value and the bounded fallback search fails —
+    the model's reading of an exhausted id space).  Nothing else resolves a request `closed`: not a frame, not
+    the wind-down (which refuses), not a dropped handle, not the open futures (`BindAll.nc_settle`).
+    Both directions. -/
+theorem pair_bind_closed_only_if_queue_closed (oa ob : Opts) (ra rb : List Nat)
+    (l : List (PairAll.Side × PairAll.Stim)) (req : Nat) :
+    let q0 : PB := { p := PairAll.init oa ob ra rb }
+    (BEv.done req .closed ∈ (runB q0 l).ha →
+      ∃ l1 l2 bt host port, l = l1 ++ (PairAll.Side.A, PairAll.Stim.call (.bindReq req bt host port)) :: l2 ∧
+        ((runB q0 l1).p.a.outClosed = true ∨
+          drawId (runB q0 l1).p.a.flows (runB q0 l1).p.a.rng (runB q0 l1).p.a.fallback 64 = none)) ∧
+    (BEv.done req .closed ∈ (runB q0 l).hb →
+      ∃ l1 l2 bt host port, l = l1 ++ (PairAll.Side.B, PairAll.Stim.call (.bindReq req bt host port)) :: l2 ∧
+        ((runB q0 l1).p.b.outClosed = true ∨
+          drawId (runB q0 l1).p.b.flows (runB q0 l1).p.b.rng (runB q0 l1).p.b.fallback 64 = none)) := by
+  intro q0
+  exact ⟨closed_in_runA q0 l req (by simp [q0]), closed_in_runB q0 l req (by simp [q0])⟩
+
+/-- … and for ONE stimulus of one endpoint, any state: `bindDone req closed` is emitted only by the
+    `request_bind` call number `req`, and only if the outbound queue was closed or no id could be drawn. -/
+theorem closed_only_at_the_call (e : EP) (op : Mux.Op) (req : Nat) (h : Ev.bindDone req .closed ∈ (applyOp e op).2.2) :
+    ∃ bt host port, op = .bindReq req bt host port ∧
+      (e.outClosed = true ∨ drawId e.flows e.rng e.fallback 64 = none) :=
+  BindAll.closed_only_at_call e op req h
+
+-- non-vacuity: `a`'s source fails, its task winds down (the outbound queue is closed); a later `request_bind` resolves `closed`
+open Penguin.BindAll Penguin.PairAll in
+example :
+    let q0 : PB := { p := PairAll.init {} allB [7, 8, 11] [9, 10] }
+    (runB q0 [(.A, .cut false), (.A, .call (.bindReq 5 .stream [97] 81))]).ha = [.done 5 .closed] ∧
+    (runB q0 [(.A, .cut false)]).p.a.outClosed = true := by decide
+
+
+open Penguin.BindAll Penguin.PairAll in
+/-- The full disjunct (c) for applications that answer a `BindRequest` at most once.  If in the run no
+    `BindRequest` of side `b` got BOTH answers (`reply(true)` and `reply(false)` — `BindRequest::reply` takes
+    `&self`, so the API does not forbid it; penguin's own server answers once), then a request of `a` that
+    resolved `refused` met (d), (a), (b) of `pair_bind_false_only_if_not_accepted_or_ended_partial`, or
+    (c) `b`'s application was shown it (exact fields) and replied `false` to it and NEVER `true` (neither before
+    nor after), or dropped it without ever replying.  (Unconditionally, "no `reply(true)` BEFORE the
+    `reply(false)`" is still open: see the `_partial` theorem; in addition to what is listed there, the
+    delivery step of the abstract pair takes its "source has ended" flag as a free parameter, which must be
+    tied to the view, and the guards of the `finBind` / `refuse` steps must read the slot by `lookup` rather
+    than by membership for the ordering argument.) -/
+theorem pair_bind_false_only_if_not_accepted_or_ended_single_reply (oa ob : Opts) {ra rb : List Nat}
+    (cfg : PairAll.Cfg ra rb) (l : List (PairAll.Side × PairAll.Stim)) (req : Nat) :
+    let q := runB { p := PairAll.init oa ob ra rb } l
+    (∀ k, ¬(BEv.replied k true ∈ q.hb ∧ BEv.replied k false ∈ q.hb)) →
+    BEv.done req .refused ∈ q.ha →
+      ∃ x bt host port, BEv.asked req x bt host port ∈ q.ha ∧
+        (q.p.a.dead = true ∨ ob.bindCap = 0 ∨ BEv.muxDropped ∈ q.hb ∨
+         ∃ k, BEv.shown k x bt host port ∈ q.hb ∧
+           ((BEv.replied k false ∈ q.hb ∧ BEv.replied k true ∉ q.hb) ∨
+            (BEv.dropped k ∈ q.hb ∧ ∀ acc, BEv.replied k acc ∉ q.hb))) := by
+  intro q hsingle hd
+  obtain ⟨x, bt, host, port, ha, hw⟩ := (pair_bind_false_only_if_not_accepted_or_ended_partial oa ob cfg l req).1 hd
+  refine ⟨x, bt, host, port, ha, ?_⟩
+  rcases hw with hw | hw | hw | ⟨k, hs, hk⟩
+  · exact Or.inl hw
+  · exact Or.inr (Or.inl hw)
+  · exact Or.inr (Or.inr (Or.inl hw))
+  · refine Or.inr (Or.inr (Or.inr ⟨k, hs, ?_⟩))
+    rcases hk with hk | hk
+    · exact Or.inl ⟨hk, fun ht => hsingle k ⟨ht, hk⟩⟩
+    · exact Or.inr hk
 
 end Penguin.C15
